@@ -445,3 +445,5 @@ MANIFEST = {
     'technique': 'alias/ownership rule + finite-abstraction interpretation + dominance + typestate',
     'design_ref': 'DESIGN.md 3/C13',
 }
+MANIFEST['note'] += (' Also decided here (necessary conditions shared between properties or added after the independent '
+                     'change rounds, DESIGN.md 8.7): kernel teardown (from C10/C14).')
